@@ -150,7 +150,11 @@ def main():
         "TLC enumerates every record (1..3 alleles, REFMASKED flag, R-/A-length INFO values in {0,1,2} units or absent) x "
         "filter (field, 7 operator spellings, thresholds {0,1,2}) x prior tag x Float/Integer field types and steps the "
         "mechanism; each final state is replayed into LocusPrior.from_variant_record. Non-trivial = state where the filter "
-        "removes an ALT, masks the reference, or the prior contains a zero / is undefined."
+        "removes an ALT, masks the reference, or the prior contains a zero / is undefined. Edge regime: AlleleFilterEdge "
+        "enumerates records over four number neighbourhoods (zero: 0, 2^-149, 1e-12, 1e-7, 2e-7, 2^-24; half and sixteenth: "
+        "neighbours in the 7th..10th decimal; int: 0, 1, 2, 2^24, 2^24+1, 2^31-1 in Integer and Float fields) x 7 operators x "
+        "6 thresholds each, verdicts from AlleleFilterExact (numbers exactly as the text spells them, BigNat), replayed with "
+        "several spellings per number (trailing zero, exponent) into from_variant_record and the programs."
     )
     cfgs = ["MC_quick.cfg", "MC_cross_quick.cfg"] if tier == "quick" else ["MC_thorough.cfg"]
     states = []
